@@ -1,5 +1,64 @@
-//! Harness binary for property C07 (line protocol; see /verif/vlib/BUILDER_GUIDE.md).
+//! Protocol `patcheck` (C07): the real parser + type checker on a generated module.
+//!
+//! Input line:  `chk <hex of samlang source>`  (one module `Test`, no imports)
+//! Answer:      `ok`                                   no diagnostics at all
+//!              `E <line>:<Kind>[:<hex payload>] ...`  every diagnostic, sorted (BTreeSet order of ErrorSet)
+//!              `panic <hex message>`                  the checker/parser panicked
+//! Kinds that matter to C07: `NonExhaustiveMatch` (payload = pretty-printed counterexample),
+//! `UselessPattern` (payload `1` = irrefutable if-let pattern, `0` = covered), everything else is
+//! reported by its Debug variant name only.
+use samlang_errors::{ErrorDetail, ErrorSet};
+use samlang_heap::Heap;
+use samverif_harness::util::*;
+use std::collections::HashMap;
+use std::panic::{AssertUnwindSafe, catch_unwind};
+
+fn kind_name(d: &ErrorDetail) -> String {
+  let dbg = format!("{d:?}");
+  dbg.split(|c: char| !c.is_ascii_alphanumeric()).next().unwrap_or("?").to_string()
+}
+
+fn check(source: &str) -> String {
+  let mut heap = Heap::new();
+  let mut error_set = ErrorSet::new();
+  let mod_ref = heap.alloc_module_reference_from_string_vec(vec!["Test".to_string()]);
+  let module =
+    samlang_parser::parse_source_module_from_text(source, mod_ref, &mut heap, &mut error_set);
+  let sources = HashMap::from([(mod_ref, module)]);
+  let _ = samlang_checker::type_check_sources(&sources, &mut error_set);
+  if !error_set.has_errors() {
+    return "ok".to_string();
+  }
+  let mut out = vec!["E".to_string()];
+  for e in error_set.errors() {
+    let line = e.location.start.0 + 1;
+    let item = match &e.detail {
+      ErrorDetail::NonExhaustiveMatch { counter_example } => {
+        format!("{line}:NonExhaustiveMatch:{}", hex(counter_example.pretty_print(&heap).as_bytes()))
+      }
+      ErrorDetail::UselessPattern { only_pattern } => {
+        format!("{line}:UselessPattern:{}", if *only_pattern { 1 } else { 0 })
+      }
+      d => format!("{line}:{}", kind_name(d)),
+    };
+    out.push(item);
+  }
+  out.join(" ")
+}
+
 fn main() {
-  eprintln!("c07: not implemented yet");
-  std::process::exit(2);
+  std::panic::set_hook(Box::new(|_| {}));
+  for_each_line(|line| {
+    let t: Vec<&str> = line.split(' ').collect();
+    match t[0] {
+      "chk" if t.len() == 2 => {
+        let src = unhex_str(t[1]);
+        match catch_unwind(AssertUnwindSafe(|| check(&src))) {
+          Ok(s) => s,
+          Err(e) => format!("panic {}", hex(panic_msg(&e).as_bytes())),
+        }
+      }
+      _ => "bad-op".to_string(),
+    }
+  });
 }
